@@ -336,14 +336,86 @@ func isFieldWalker(fn *ssa.Function) bool {
 	return hasBuf && hasVal
 }
 
-func isMessageReader(fn *ssa.Function) bool {
+func isMessageReader(p *Program, fn *ssa.Function) bool {
 	if fn == nil {
 		return false
 	}
 	if fn.Name() == "UnmarshalUT0311L0x" || fn.Name() == "MarshalUT0311L0x" {
 		return true
 	}
-	return isFieldWalker(fn)
+	return isFieldWalker(fn) || isFieldHelper(p, fn)
+}
+
+// isFieldHelper: an unexported function of the codec package with a byte-slice parameter that is used only by
+// static calls from field walkers (or other field helpers) which hand it their own message buffer: a piece of
+// the field codec split off into a function of its own (putBool(buffer, offset, v), decodeUint32(bytes, offset)).
+// Rule K1 inlines such helpers into the walk of the field codec, so their accesses are derived and bounded
+// there exactly as if they were written in line.
+var fieldHelperMemo = map[*ssa.Function]int{} // 1 yes, 2 no, 3 in progress
+
+func isFieldHelper(p *Program, fn *ssa.Function) bool {
+	switch fieldHelperMemo[fn] {
+	case 1:
+		return true
+	case 2, 3:
+		return false
+	}
+	fieldHelperMemo[fn] = 3
+	res := func() bool {
+		pk := fnPkg(fn)
+		if pk == nil || !strings.HasSuffix(pk.Pkg.Path(), codecRel) || fn.Object() == nil || fn.Object().Exported() || fn.Signature.Recv() != nil {
+			return false
+		}
+		bufIdx := []int{}
+		for i, prm := range fn.Params {
+			// the message buffer is a plain []byte; named byte-slice types (net.IP, net.HardwareAddr) are field values
+			if sl, ok := types.Unalias(prm.Type()).(*types.Slice); ok {
+				if b, ok := sl.Elem().Underlying().(*types.Basic); ok && b.Kind() == types.Uint8 {
+					bufIdx = append(bufIdx, i)
+				}
+			}
+		}
+		if len(bufIdx) == 0 {
+			return false
+		}
+		calls := 0
+		for _, caller := range p.AllFuncs {
+			for _, b := range caller.Blocks {
+				for _, in := range b.Instrs {
+					if c, ok := in.(ssa.CallInstruction); ok && c.Common().StaticCallee() == fn {
+						if _, isGo := in.(*ssa.Go); isGo {
+							return false
+						}
+						if !isFieldWalker(caller) && !isFieldHelper(p, caller) {
+							return false
+						}
+						for _, i := range bufIdx {
+							if !isBufParam(c.Common().Args[i]) {
+								return false
+							}
+						}
+						calls++
+						continue
+					}
+					// any other mention of the function (a function value) is not a static call
+					for _, op := range in.Operands(nil) {
+						if *op == ssa.Value(fn) {
+							if c, ok := in.(ssa.CallInstruction); !ok || c.Common().Value != ssa.Value(fn) {
+								return false
+							}
+						}
+					}
+				}
+			}
+		}
+		return calls > 0
+	}()
+	if res {
+		fieldHelperMemo[fn] = 1
+	} else {
+		fieldHelperMemo[fn] = 2
+	}
+	return res
 }
 
 func isBufParam(v ssa.Value) bool {
@@ -351,6 +423,21 @@ func isBufParam(v ssa.Value) bool {
 		switch x := v.(type) {
 		case *ssa.Parameter:
 			_, ok := x.Type().Underlying().(*types.Slice)
+			return ok
+		case *ssa.Slice:
+			v = x.X
+		default:
+			return false
+		}
+	}
+}
+
+// isPlainBufParam: (a slice of) a parameter of the unnamed type []byte.
+func isPlainBufParam(v ssa.Value) bool {
+	for {
+		switch x := v.(type) {
+		case *ssa.Parameter:
+			_, ok := types.Unalias(x.Type()).(*types.Slice)
 			return ok
 		case *ssa.Slice:
 			v = x.X
@@ -515,6 +602,8 @@ func classifyPanic(p *Program, fn *ssa.Function, x *ssa.Panic) panicSite {
 		s.ok, s.why = true, "documented Must* helper (panics by contract on its own argument)"
 	case isFieldWalker(fn):
 		s.ok, s.why = true, "codec default for unsupported kinds: excluded for every declared layout by rule L2"
+	case p.initOnly(fn) && pkgOf(fn) != nil && p.initStateOf(pkgOf(fn)).ok:
+		s.ok, s.why = true, "runs only during package initialisation, which was evaluated: its single path returns without reaching this panic"
 	default:
 		// a type-switch default: all static callers must pass one of the handled types
 		handled := map[string]bool{}
@@ -700,14 +789,49 @@ func classifyAssert(p *Program, fn *ssa.Function, x *ssa.TypeAssert) panicSite {
 // reflectTypeOfGlobal: the Go type T of a package-level variable initialised with reflect.TypeOf(T{...}).
 func reflectTypeOfGlobal(g *ssa.Global) types.Type {
 	for _, sv := range storedInto(initFn(g), g) {
-		call, ok := sv.(*ssa.Call)
-		if !ok {
-			continue
+		if t := reflectTypeOfValue(sv, 0); t != nil {
+			return t
 		}
-		if f := call.Call.StaticCallee(); f != nil && calleeName(f) == "reflect.TypeOf" && len(call.Call.Args) == 1 {
-			if mi, ok := call.Call.Args[0].(*ssa.MakeInterface); ok {
-				return mi.X.Type()
+	}
+	return nil
+}
+
+// reflectTypeOfValue: the Go type a reflect.Type-valued expression of the initialiser denotes:
+// reflect.TypeOf(x), reflect.TypeFor[T](), reflect.TypeOf((*T)(nil)).Elem(), reflect.PointerTo(t).
+func reflectTypeOfValue(v ssa.Value, depth int) types.Type {
+	call, ok := v.(*ssa.Call)
+	if !ok || depth > 3 {
+		return nil
+	}
+	if call.Call.IsInvoke() {
+		if call.Call.Method.Name() == "Elem" {
+			if inner := reflectTypeOfValue(call.Call.Value, depth+1); inner != nil {
+				switch u := inner.Underlying().(type) {
+				case *types.Pointer:
+					return u.Elem()
+				case *types.Slice:
+					return u.Elem()
+				case *types.Array:
+					return u.Elem()
+				}
 			}
+		}
+		return nil
+	}
+	f := call.Call.StaticCallee()
+	if f == nil {
+		return nil
+	}
+	switch {
+	case calleeName(f) == "reflect.TypeOf" && len(call.Call.Args) == 1:
+		if mi, ok := call.Call.Args[0].(*ssa.MakeInterface); ok {
+			return mi.X.Type()
+		}
+	case f.Origin() != nil && f.Origin().Name() == "TypeFor" && f.Origin().Pkg != nil && f.Origin().Pkg.Pkg.Path() == "reflect" && len(f.TypeArgs()) == 1:
+		return f.TypeArgs()[0]
+	case (calleeName(f) == "reflect.PointerTo" || calleeName(f) == "reflect.PtrTo") && len(call.Call.Args) == 1:
+		if inner := reflectTypeOfValue(call.Call.Args[0], depth+1); inner != nil {
+			return types.NewPointer(inner)
 		}
 	}
 	return nil
@@ -809,6 +933,10 @@ func classifyIndex(p *Program, fn *ssa.Function, in ssa.Instruction, base, idx s
 			s.ok, s.why = true, "every static caller passes a constant inside the table"
 			return s
 		}
+		if proveIndexInBounds(p, in, base, idx) {
+			s.ok, s.why = true, "0 <= index < length entailed by the dominating conditions (linear bound domain)"
+			return s
+		}
 		tn := typeName(it)
 		_, enumLike := types.Unalias(it).(*types.Named)
 		switch {
@@ -823,7 +951,7 @@ func classifyIndex(p *Program, fn *ssa.Function, in ssa.Instruction, base, idx s
 		return s
 	}
 	// slices and strings
-	if isMessageReader(fn) && isBufParam(base) {
+	if isMessageReader(p, fn) && isBufParam(base) && (!isFieldHelper(p, fn) || isPlainBufParam(base)) {
 		s.ok, s.why = true, "message buffer inside the field codec: bounded by len==64 (F4) and offset+width<=64 (L3, K1)"
 		return s
 	}
@@ -878,6 +1006,10 @@ func classifyIndex(p *Program, fn *ssa.Function, in ssa.Instruction, base, idx s
 					s.ok, s.why = true, "index inside the slice literal by a dominating bound"
 					return s
 				}
+				if proveIndexInBounds(p, in, base, idx) {
+					s.ok, s.why = true, "0 <= index < length entailed by the dominating conditions (linear bound domain)"
+					return s
+				}
 				s.rule, s.kind = "P2", "table"
 				it := idx.Type()
 				if cv, ok := idx.(*ssa.Convert); ok {
@@ -906,6 +1038,10 @@ func classifyIndex(p *Program, fn *ssa.Function, in ssa.Instruction, base, idx s
 				return s
 			}
 		}
+	}
+	if proveIndexInBounds(p, in, base, idx) {
+		s.ok, s.why = true, "0 <= index < length entailed by the dominating conditions (linear bound domain)"
+		return s
 	}
 	s.detail = fmt.Sprintf("index %s of %s is not bounded by any recognised guard", idx.Name(), base.Name())
 	return s
@@ -1103,7 +1239,7 @@ func classifySlice(p *Program, fn *ssa.Function, x *ssa.Slice) panicSite {
 		s.ok, s.why = true, "full slice"
 		return s
 	}
-	if isMessageReader(fn) && isBufParam(x.X) {
+	if isMessageReader(p, fn) && isBufParam(x.X) && (!isFieldHelper(p, fn) || isPlainBufParam(x.X)) {
 		s.ok, s.why = true, "message buffer inside the field codec: bounded by len==64 (F4) and offset+width<=64 (L3, K1)"
 		return s
 	}
@@ -1226,6 +1362,10 @@ func classifySlice(p *Program, fn *ssa.Function, x *ssa.Slice) panicSite {
 			s.ok, s.why = true, "constant bounds within the guaranteed minimum length"
 			return s
 		}
+	}
+	if proveSliceInBounds(p, x) {
+		s.ok, s.why = true, "0 <= low <= high <= capacity entailed by the dominating conditions (linear bound domain)"
+		return s
 	}
 	s.detail = fmt.Sprintf("slice bounds of %s are not covered by any recognised guard (guaranteed length >= %d)", x.X.Name(), min)
 	return s
